@@ -463,6 +463,10 @@ func (rw *rewriter) syncCall(c *ast.CallExpr) {
 		fn = "RWRUnlock"
 	case "Once.Do":
 		fn = "OnceDo"
+	case "Pool.Get":
+		fn = "PoolGet"
+	case "Pool.Put":
+		fn = "PoolPut"
 	default:
 		return
 	}
